@@ -85,7 +85,7 @@ CLAIMS = {
        "descriptors, run through the real handlers, labels.Validate and readers; TLC validates each recorded result against the spec and the monitor evaluates the formulas on the "
        "recorded values alone. Found and fixed: urls.<i> indexed by child position instead of layer position (0e33758).",
   design_ref="DESIGN.md 3 (C20), 2.4, 2.5",
-  note="Strings abstracted to (length, token ids); no ',' in URLs/refs; no pre-set remote/* annotations on input descriptors; an absent URL list read back as [\"\"] is treated as "
+  note="Strings abstracted to (length, token ids); no ',' in URLs/refs; on the pinned code manifests whose layer descriptors pre-set remote/urls* or prefetch make RoundTrip / PrefetchSizeRoundTrips false for the extra (CRI-labels) flavour (known finding :fl=extra:preset; the exhaustive runs check the repaired design, the pinned design is a negative control); an absent URL list read back as [\"\"] is treated as "
        "no URL (only ipfs:// prefixes are consumed downstream); fs.Mount observed at the GetSources boundary. Trusted: TLC, the driver's materialisation.",
   technique="TLA+ transcription + TLC exhaustive enumeration with negative controls; every case replayed through the real handlers/readers; TLC conformance + formula-only monitor"),
  "C17": dict(
@@ -215,5 +215,44 @@ CLAIMS = {
   note="Only the structured space within the stated bounds - not unstructured byte fuzzing; registry replies (Content-Range / multipart) and the FUSE node layer are not covered; in quick the db "
        "store runs a seeded subset of the 3-entry structures; compressed-stream internals are the decoders' business. Trusted: TLC, the concretiser, the child-process runner.",
   technique="TLA+ structured input-space model + TLC enumeration; every case replayed through the real parsers/stores in crash-isolated child processes; TLC conformance to the allowed-outcome reference + NoCrashNoHang monitor"),
+ "C12": dict(
+  text="Layer.tla models layer.Resolver.Resolve / resolveBlob as a per-caller program with one action per critical section (resolve lock, layerCache / blobCache Get / Check / evicting "
+       "release / Remove / Add with the discard-the-new-one branch, new cache directories, registry and metadata failures), Done / Close / repeated Close, Refresh, connectivity breaks and TTL "
+       "expiry of either cache; the two caches follow the refcount contract of C10. TLC checks HeldLayerServes, ReturnedIsCached + NoDuplicateCreation (one instance per name), "
+       "AllReleasedAndEvictedFreesEverything, ClosedMeansGone, NoOpenFilesAfterClose, FailedResolveLeaksNothing, ResolveAgainWorks exhaustively with 7 negative controls. Binding: every edge of "
+       "the generation graphs is executed on a real Resolver with Resolve goroutines stepped between 14 verifhook gates (in-memory remote.Handler, real directory caches, wrapped metadata reader, "
+       "open files read from /proc/self/fd); TLC validates the recorded projections and the monitor evaluates the formulas; free-running goroutines (burst resolves, Done/Close/expiry/faults) "
+       "run under -race and are decided by the monitor. Found and fixed: directoryCache.Close left its fd LRU open (2d84805).",
+  design_ref="DESIGN.md 3 (C12), 2.4, 2.5",
+  note="Bounded models (1 name x 3 holders x 4 resolves x 2 faults; 2 names x 2 holders x 3 resolves); expiry is driven through TTLCache.Remove, not real timers (C10's subject); the Done/close cascade is "
+       "one atomic step in the model; two concurrent Resolve calls of one name without the lock are exercised only by the free-running burst phase; not covered: memory cache type, db metadata store, "
+       "prefetch/background fetch (C15), passthrough, mkdir/Close errors. Trusted: TLC, the projection (reflection on cacheutil/remote/reader fields) in harness/fs/layer/verif_layerlife_test.go.",
+  technique="TLA+ spec + TLC exhaustive check with negative controls; gated edge-cover replay of the TLC state graph into Go; TLC trace validation + property monitor (also on free-running -race executions)"),
+ "C19": dict(
+  text="Convert.tla models one converter instance (eStargz, zstd:chunked, external-TOC lossy and lossless) running N conversions: option append, Build, OpenStream (writer ref, Truncate, lossless "
+       "DiffID check), CommitBlob (AlreadyExists keeps labels), Interrupt, Annotate, the shared esgzDigest2TOC map write (begin/end) and Finalize, over a content store and a catalogue of sources "
+       "(plain, gzip, zstd, already-converted; OCI and Docker media types). TLC checks DescDescribesBlob (digest, size, TOC digest verifies, uncompressed size, store label = DiffID, media type, zstd "
+       "manifest info), TocImageMapsEveryLayer, LosslessKeepsDiffID, NoConversionPanics, MapWritesMutuallyExclusive exhaustively with 6 negative controls. Binding: every edge-cover schedule is imposed "
+       "on real ConvertFunc goroutines parked at verifhook gates and at writer calls of a wrapping plugins/content/local store; free runs put 2-4 conversions in parallel under -race; every value the "
+       "formulas use is recomputed independently from the bytes read back from the store (sha256, full decompression, estargz.Open + VerifyTOC + every chunk verifier, hand-parsed zstd:chunked footer); "
+       "TLC trace validation + monitor decide. Found and fixed: five defects (three shared-slice/map races, a wrong media type, a nil-buffer panic).",
+  design_ref="DESIGN.md 3 (C19), 2.4, 2.5, 7 item 7",
+  note="N=2 conversions over 4 sources in quick (N=3 thorough); tiny layers; per-layer-option APIs only in a few free runs; a deviating lossless writer exists only in the design model; interruption and "
+       "stale ingests exercised but not studied separately; the packages' own tests need the network and are outside the baseline. Trusted: TLC, the independent recomputation in the driver.",
+  technique="TLA+ spec + TLC exhaustive check with negative controls; gated edge-cover replay of schedules into real conversions; TLC trace validation + property monitor; parallel conversions under -race"),
+ "C15": dict(
+  text="Prefetch.tla models Layer.Prefetch / WaitForPrefetchCompletion / BackgroundFetch over a scenario record (layer layout measured from really built layers: file offsets, registry chunk "
+       "spans, landmark kind and offset, blob size; configured size, async threshold, caller counts): PrefetchCall with the Once, Range (no-prefetch | landmark offset | configured size capped at "
+       "the blob size), AsyncThreshold, BlobCache ok|fail|stall, ReaderCache, PrefetchEnd (waiter closed also on failure), Wait / WaitReturn / WaitTimeout, BackgroundFetch suspended by "
+       "prioritized tasks, reads, registry off/on. TLC checks AfterPrefetchPrioritizedReadsAreLocal, NoPrefetchLandmarkNoTraffic, ConfiguredSizeCapped, PrefetchTrafficConfined, "
+       "AfterBackgroundFetchOfflineReadable, WaiterClosedAtEnd, WaitNeverStuck exhaustively and WaitReturns under fairness, with 6 negative controls. Binding: TLC walks are replayed at verifhook "
+       "gates on real layers (estargz.Build with prioritized lists, incl. tars with a './' root entry) resolved by layer.Resolver over a recording remote.Handler with a scripted fail/stall/off "
+       "switch, on BOTH metadata stores; request-log deltas, read results and wait outcomes are validated by TLC against the spec and the formulas (plus MonCompletes, MonWaitBounded) evaluated "
+       "by the monitor; free-running concurrent calls under -race are decided by the monitor. The db-store './' defect (prefetch never completing) was re-found by this check (fixed under C05).",
+  design_ref="DESIGN.md 3 (C15), 2.4, 2.5, 7 item 8",
+  note="Quick replays 16 walks per scenario (exhaustive false; thorough covers every edge); chunk cache = directory cache with SyncAdd (with asynchronous persistence a miss in the window is allowed by "
+       "C11); reads go through reader.Reader.OpenFile, not a kernel mount; files, not chunks, are the unit of caching in the spec; the task manager is abstract (C13); wait timing checked with 3 s slack; "
+       "cfg = 0 and a closed layer not exercised. Trusted: TLC, the recording registry and projection in harness/fs/layer/verif_prefetch.go.",
+  technique="TLA+ spec + TLC exhaustive safety and fair liveness checks with negative controls; gated replay of TLC walks on real layers over both metadata stores; TLC trace validation + property monitor; free-running -race runs"),
 }
 NOT_APPLICABLE = {}
